@@ -12,6 +12,7 @@ pub mod c31;
 pub mod c35;
 pub mod c37;
 pub mod c42;
+pub mod c49;
 pub mod dirchecks;
 pub mod replchecks;
 pub mod tokchecks;
@@ -26,6 +27,7 @@ pub fn dispatch(id: &str, args: &[String]) -> ! {
         "C11" => c11::run(args),
         "C12" => c12::run(args),
         "C14" => c14::run(args),
+        "C49" => c49::run(args),
         "C42" => c42::run(args),
         "C17" => dirchecks::run("C17", args),
         "C19" => replchecks::run("C19", args),
